@@ -151,19 +151,23 @@ def run_task(prop, obl_index, case_index, stack, deadline, slice_s=None):
       res['exc_paths'][sig] = res['exc_paths'].get(sig, 0) + 1
       fails.append((sig, None, ''.join(traceback.format_exception(outcome[1])[-6:])))
     else:
+      sym = []
       for name, cond in ctx.clauses:
         res['clauses_checked'] += 1
         if isinstance(cond, SymBool):
           res['clauses_symbolic'] += 1
-          ne = z3.Not(cond.e)
-          if eng_.check(ne): fails.append(('clause:' + name, ne, ''))
+          sym.append((name, z3.Not(cond.e)))
         elif isinstance(cond, SymInt):
-          ne = (cond.e == 0)
-          if eng_.check(ne): fails.append(('clause:' + name, ne, ''))
+          res['clauses_symbolic'] += 1
+          sym.append((name, cond.e == 0))
         elif not cond:
           fails.append(('clause:' + name, None, ''))
+      # one query for the whole path (PC and some clause violated); per-clause queries only when that is satisfiable
+      if sym and eng_.check(z3.Or(*[ne for _, ne in sym]) if len(sym) > 1 else sym[0][1]):
+        for name, ne in sym:
+          if eng_.check(ne): fails.append(('clause:' + name, ne, ''))
     for sig, ne, detail in fails:
-      ks = [k for k in known if k.get('signature') == sig]
+      ks = [k for k in known if k.get('signature') == sig or (k.get('signature_prefix') and sig.startswith(k['signature_prefix']))]
       extra = [ne] if ne is not None else []
       is_known = False
       if ks:
@@ -268,7 +272,7 @@ def run_property(prop, tier, seed=0, budget_s=None, jobs=None, only=None, slice_
     agg[o.name] = dict(desc=o.desc, cases=len(o.cases), tasks=0, paths=0, forked=0, queries=0, solver_s=0.0,
                        concretisations=0, clauses_checked=0, clauses_symbolic=0, witnesses=set(), samples=[],
                        status='ok', reasons=[], exc_paths={}, known=0, cpu_s=0.0)
-  failures = []; knowns = []; engine_errors = []; inconclusive = []
+  failures = []; knowns = []; engine_errors = []; inconclusive = []; percase = {}
   with cf.ProcessPoolExecutor(max_workers=jobs, mp_context=mpctx) as ex:
     pending = set()
     for oi, o in enumerate(obls):
@@ -283,6 +287,7 @@ def run_property(prop, tier, seed=0, budget_s=None, jobs=None, only=None, slice_
           engine_errors.append("worker died: %r" % (e,)); continue
         a = agg[r['obl']]
         a['tasks'] += 1
+        percase[(r['obl'], r['case_index'])] = percase.get((r['obl'], r['case_index']), 0) + r['paths']
         for k in ('paths', 'forked', 'queries', 'solver_s', 'concretisations', 'clauses_checked', 'clauses_symbolic'):
           a[k] += r[k]
         a['cpu_s'] += r['wall_s']
@@ -405,4 +410,7 @@ def run_property(prop, tier, seed=0, budget_s=None, jobs=None, only=None, slice_
     a = agg[o.name]
     print("  %-28s cases=%-4d paths=%-7d queries=%-8d cpu=%.1fs %s%s" % (o.name, a['cases'], a['paths'], a['queries'], a['cpu_s'],
           a['status'], (' known=%d' % a['known']) if a['known'] else ''))
+  if os.environ.get('VERIF_VERBOSE'):
+    for (on, ci), n in sorted(percase.items(), key=lambda x: -x[1])[:12]:
+      print('   case %s[%d] paths=%d %s' % (on, ci, n, [o for o in obls if o.name == on][0].cases[ci]))
   return status
